@@ -5,10 +5,15 @@ import Jrpc.Tie.Util
 namespace Jrpc.Tie.C04
 open Jrpc.Gen Jrpc.Gen.Facts Jrpc.GoPrelude Jrpc.Tie
 
-/-- the pending set: one registration, two removals (delivery; context watcher), always under the
-mutex - the one remover is the one writer of the request's slot -/
+/-- the pending set: one registration; removals only in the delivery path and in the context
+watcher - two sites, or several sites inside those two functions (a removal copied into the
+branches of one of them) - always under the mutex: the one remover is the one writer of the
+request's slot (that `deliverLocked` removes the entry on every completing path is
+`Tie.Decide.deliver_completes_iff`) -/
 theorem pending_writers :
-    cnt "c.pending" "assign" = 1 ∧ cnt "c.pending" "delete" = 2 ∧ total "c.pending" = 3 ∧ allLocked "c.pending" = true := by decide
+    cnt "c.pending" "assign" = 1 ∧
+    (cnt "c.pending" "delete" = 2 ∨ (fnsOf "c.pending" "delete" = ["deliverLocked", "waitComplete"])) ∧
+    total "c.pending" = 1 + cnt "c.pending" "delete" ∧ allLocked "c.pending" = true := by decide
 
 /-- the id counter is advanced at one site, under the mutex -/
 theorem id_counter : cnt "c.nextID" "assign" = 1 ∧ total "c.nextID" = 1 ∧ allLocked "c.nextID" = true := by decide
